@@ -3,10 +3,12 @@
 use crate::report::{Run, Tier};
 
 pub mod c01;
+pub mod c03;
 
 pub fn run(id: &str, tier: Tier) -> i32 {
     let run = match id {
         "C01" => { let r = Run::new("C01", tier); c01::run(&r); r }
+        "C03" => { let r = Run::new("C03", tier); c03::run(&r); r }
         _ => {
             eprintln!("unknown property id {id}");
             return 2;
@@ -18,6 +20,7 @@ pub fn run(id: &str, tier: Tier) -> i32 {
 pub fn replay_case(id: &str, op: &str, case: &serde_json::Value) -> Result<(), String> {
     match (id, op) {
         (_, "enum_roundtrip") => c01::replay_case(case),
+        (_, "pipelines_agree") | (_, "vocab_table") => c03::replay_case(case),
         _ => Err(format!("no replayer for property {id} op {op:?}")),
     }
 }
